@@ -12,6 +12,11 @@ Extension round: every public Simulator query is a model step (`probs`, `probabi
 inputs, a held NoiseModel updated in place and not assigned again, precisions, and histories without an explicit
 photon filter; the provenance the model reports is compared with the harness's own tracking at every query.
 
+Strengthening round 3: the SLOS class constructed with `use_symbolic=True` is an engine variant of its own ("SLOSsym":
+sympy coefficients, some circuit parameters left symbolic, answers evaluated at one point for both objects); every
+engine is asked the whole amplitude table through `prob_amplitude` ("amps"); Stepper histories swap between circuits
+that agree on everything the request key of `Stepper.compile` looks at and ask the last question again at once.
+
 Three streams of histories: recorded ones (corpus/C05, directed), random ones, and enumerated ones — for the
 backends every history over a reduced alphabet up to a length, for Simulator / Stepper / Processor every ordered
 pair of configuration steps around a query asked twice (`pairwise_*`: a step, a query that fills the caches, a
@@ -54,6 +59,14 @@ from .gens import shrink_list
 
 TOL = 1e-9
 BACKENDS = ["Naive", "SLOS", "SLAP", "MPS"]
+# the same SLOS class constructed with `use_symbolic=True` (sympy coefficients, a branch of its own in `_Path.compute`):
+# an engine variant of the harness, the model kind is "slos" (the clear / reuse decisions are the same code)
+SYMBOLIC = "SLOSsym"
+DEFAULT_SUB = 1.3       # value given to a parameter left symbolic when an answer is evaluated
+
+
+def kind_of(variant):
+    return "SLOS" if variant == SYMBOLIC else variant
 
 
 # ------------------------------------------------------------------------------------------------
@@ -82,7 +95,8 @@ def pc():
             pass
         p = _PC()
         p.pcvl = pcvl
-        p.B = {"Naive": NaiveBackend, "SLOS": SLOSBackend, "SLAP": SLAPBackend, "MPS": MPSBackend}
+        p.B = {"Naive": NaiveBackend, "SLOS": SLOSBackend, "SLAP": SLAPBackend, "MPS": MPSBackend,
+               SYMBOLIC: lambda: SLOSBackend(use_symbolic=True)}
         p.Simulator, p.Stepper = Simulator, Stepper
         _pc = p
     return _pc
@@ -114,6 +128,15 @@ def same(a, b, tol=TOL):
     return a == b
 
 
+def c_num(x, subs=None):
+    """a number or a sympy expression (symbolic SLOS) -> complex; the parameters left symbolic are given the values
+    of `subs` (by name) — the long-lived and the fresh object are evaluated at the same point"""
+    fs = getattr(x, "free_symbols", None)
+    if fs:
+        x = x.subs({sym: (subs or {}).get(sym.name, DEFAULT_SUB) for sym in fs})
+    return complex(x)
+
+
 def agree(real, fresh):
     """the direct oracle: same answer; two failures agree whatever their classes (an object that a fresh
     configuration cannot answer either is not configured)"""
@@ -127,7 +150,8 @@ def agree(real, fresh):
 # ------------------------------------------------------------------------------------------------
 def build_circuit(spec, values):
     """spec = {"m": m, "comps": [[kind, mode, arg…]…]}; an arg is a float or ["p", name] (a variable
-    parameter, set to values[name]).  New Parameter objects on every call."""
+    parameter, set to values[name]; values[name] = None leaves it symbolic — symbolic SLOS only).  New Parameter
+    objects on every call."""
     p = pc().pcvl
     c = p.Circuit(spec["m"])
     P = {}
@@ -137,7 +161,8 @@ def build_circuit(spec, values):
             name = a[1]
             if name not in P:
                 P[name] = p.P(name)
-                P[name].set_value(values[name])
+                if values[name] is not None:
+                    P[name].set_value(values[name])
             return P[name]
         return a
 
@@ -226,11 +251,17 @@ class BackendRun:
     """ops: ["circ", cid] | ["param", name, value] (change a variable parameter, then set_circuit again with the
     same circuit object, as tests/test_backends.py::test_slos_refresh_coefs does) | ["in", state] |
     ["mask", [strs], n|None, "same"?] ("same": one list object of the caller updated in place and passed again) |
-    ["clear"] | ["cutoff", k] | ["q", kind, arg?]"""
+    ["clear"] | ["cutoff", k] | ["q", kind, arg?]; kinds: dist | allprob | evolve | amp out | prob out | amps (the
+    whole table through `prob_amplitude`: every output state with the photon number of the current input; the only
+    bulk question a symbolic SLOS answers).  variant "SLOSsym": `SLOSBackend(use_symbolic=True)`; a parameter whose
+    value is None is left symbolic (["param", name, None] makes it symbolic again), answers are evaluated at
+    h["subs"]."""
 
     def __init__(self, h):
         self.h = h
         self.variant = h["variant"]
+        self.kind = kind_of(self.variant)
+        self.subs = h.get("subs") or {}
         self.values = dict(h["params"])
         self.b = pc().B[self.variant]()
         self.circ = {}
@@ -262,12 +293,31 @@ class BackendRun:
         if k == "q":
             if op[1] in ("amp", "prob") and self.cfg["input"] is not None and sum(op[2]) != sum(self.cfg["input"]):
                 return ["q", "amp_other"]
-            return ["q", {"dist": "dist", "allprob": "allprob", "evolve": "evolve", "amp": "amp", "prob": "amp"}[op[1]]]
+            return ["q", {"dist": "dist", "allprob": "allprob", "evolve": "evolve", "amp": "amp", "prob": "amp",
+                          "amps": "amp"}[op[1]]]
         raise ValueError(op)
 
     def query(self, b, op):
         BS = pc().pcvl.BasicState
         kind = op[1]
+        subs = self.subs
+        if kind == "amps":
+            inp = self.cfg["input"]
+            if inp is None:
+                m = self.h["circuits"][self.cfg["circ"]]["m"] if self.cfg["circ"] is not None else 2
+                outs = [[1] + [0] * (m - 1)]
+            else:
+                outs = states(len(inp), sum(inp))
+            row = []
+            for o in outs:          # a state the mask excludes is refused: an output of its own
+                try:
+                    a = c_num(b.prob_amplitude(BS(o)), subs)
+                    row.append([a.real, a.imag])
+                except Exception:
+                    row.append("refused")
+            if all(x == "refused" for x in row):
+                return {"e": "refused"}
+            return {"v": row}
         if kind == "dist":
             return obs(lambda: c_dist(b.prob_distribution(), True))
         if kind == "allprob":
@@ -276,11 +326,11 @@ class BackendRun:
             return obs(lambda: c_sv(b.evolve()))
         if kind == "amp":
             def f():
-                a = complex(b.prob_amplitude(BS(op[2])))
+                a = c_num(b.prob_amplitude(BS(op[2])), subs)
                 return [a.real, a.imag]
             return obs(f)
         if kind == "prob":
-            return obs(lambda: float(b.probability(BS(op[2]))))
+            return obs(lambda: c_num(b.probability(BS(op[2])), subs).real)
         raise ValueError(op)
 
     def apply(self, op):
@@ -296,7 +346,10 @@ class BackendRun:
             self.values[op[1]] = op[2]
             for c, P in self.circ.values():
                 if op[1] in P:
-                    P[op[1]].set_value(op[2])
+                    if op[2] is None:
+                        P[op[1]].reset()            # symbolic again
+                    else:
+                        P[op[1]].set_value(op[2])
             if self.cfg["circ"] is None:
                 return {"v": None}
             r = obs(lambda: b.set_circuit(self.circ[self.cfg["circ"]][0]) and None)
@@ -373,7 +426,7 @@ class BackendRun:
             s["mask_n"] = b._mask_n
         if hasattr(b, "_mask"):
             s["has_mask"] = b._mask is not None
-        if self.variant == "SLOS":
+        if self.kind == "SLOS":
             sm = get("_state_mapping")
             if sm is not None:
                 s["inputs"] = sorted(list(k) for k in sm.keys())
@@ -404,7 +457,7 @@ class BackendRun:
         return s, miss
 
     def model_request(self, mops):
-        return {"fam": "backend", "kind": self.variant.lower(), "fixed": True, "ops": mops}
+        return {"fam": "backend", "kind": self.kind.lower(), "fixed": True, "ops": mops}
 
     def expected_res(self, mout):
         """the provenance the model reports must be the current configuration"""
@@ -449,18 +502,31 @@ def gen_backend(rng, variant, nops, mmax):
     circuits["c3"] = gen_spec(rng, circuits[same_m]["m"], pname="a3")    # same-size swap available
     params = {"a%d" % i: round(rng.uniform(0.4, 2.6), 3) for i in range(4)}
     h = {"family": "backend", "variant": variant, "params": params, "circuits": circuits, "ops": []}
+    symbolic = variant == SYMBOLIC
+    if symbolic:        # some parameters are left symbolic; the answers are evaluated at h["subs"]
+        h["subs"] = {k: round(rng.uniform(0.4, 2.6), 3) for k in params}
+        for k in params:
+            if rng.random() < 0.5:
+                params[k] = None
     m = None
     cur = None
     inp = None
     mlen = None
     ops = h["ops"]
-    nmax = 3 if variant != "MPS" else 3
+    given = []
 
     def rand_state(mm):
         # no vacuum input under a mask: the native arrays of an unsatisfiable mask are empty (a mask such as
         # "2 1 " with n=2, a vacuum input, then a 2-photon input crashes the interpreter on both trees)
+        # an input given earlier comes back often: whatever an engine keeps per input (SLOS paths and coefficients,
+        # iterators, Fock arrays) is read again after the steps in between
+        old = [s for s in given if len(s) == mm and (mlen is None or sum(s) > 0)]
+        if old and rng.random() < 0.4:
+            return list(rng.choice(old))
         n = rng.choice([1, 1, 2, 2, 2, 3] if mlen is not None else [0, 1, 1, 2, 2, 2, 3])
-        return rng.choice(states(mm, n))
+        st = rng.choice(states(mm, n))
+        given.append(st)
+        return st
 
     def rand_mask(mm):
         """satisfiable masks only: the digits never ask for more photons than the mask is instantiated with"""
@@ -499,7 +565,7 @@ def gen_backend(rng, variant, nops, mmax):
                     mlen = m
         elif r < 0.21:
             name = rng.choice(list(params))
-            ops.append(["param", name, round(rng.uniform(0.4, 2.6), 3)])
+            ops.append(["param", name, None if symbolic and rng.random() < 0.3 else round(rng.uniform(0.4, 2.6), 3)])
             inp = None
         elif r < 0.50:
             if rng.random() < 0.07:
@@ -519,7 +585,14 @@ def gen_backend(rng, variant, nops, mmax):
         elif r < 0.71 and variant == "MPS":
             ops.append(["cutoff", rng.choice([1, 2, 3, 4, 5, 8])])
         else:
-            kind = rng.choice(["dist", "dist", "allprob", "evolve", "amp", "prob"])
+            # (a symbolic SLOS answers through prob_amplitude / probability only: the bulk queries raise on both sides)
+            kind = rng.choice(["amps", "amps", "amps", "amp", "prob", "dist"] if symbolic else
+                              ["dist", "dist", "allprob", "evolve", "amp", "prob", "amps"])
+            if inp is None and rng.random() < 0.8:
+                # (a circuit or parameter step drops the input: mostly give one again, so that the query is answered
+                # from whatever the engine kept across that step)
+                inp = rand_state(m)
+                ops.append(["in", inp])
             if kind in ("amp", "prob"):
                 n = sum(inp) if inp is not None else 1
                 if rng.random() < 0.15 and variant != "MPS":      # MPS indexes its tensors with the output counts
@@ -541,7 +614,15 @@ def short_alphabet(variant):
              ["mask", ["1 "], None], ["mask", [" 1"], 2], ["clear"], ["q", "dist"]]
     if variant == "MPS":
         alpha.append(["cutoff", 2])
+    if variant == SYMBOLIC:
+        # circuit A keeps a symbolic parameter (params {"s0": None}); the bulk question goes through prob_amplitude
+        circuits["A"] = {"m": 2, "comps": [["BS", 0, ["p", "s0"], 0.4], ["PS", 0, 0.3]]}
+        alpha[-1] = ["q", "amps"]
     return circuits, alpha
+
+
+SHORT_PARAMS = {SYMBOLIC: {"s0": None}}
+SHORT_SUBS = {"s0": 1.1}
 
 
 # ------------------------------------------------------------------------------------------------
@@ -1020,18 +1101,34 @@ class StepperRun:
 
 def gen_stepper(rng, variant, nops):
     m = 3
-    circuits = {"c%d" % i: gen_spec(rng, m, pname="a%d" % i, depth=2, nice=True) for i in range(3)}
-    params = {"a%d" % i: rng.choice(NICE) for i in range(3)}
+    # `Stepper.compile` recognises a request by (values of the variable parameters, input, filter): c1 and c2 have no
+    # variable parameter, c3's often has the value of c0's — circuits the key cannot tell apart
+    circuits = {"c%d" % i: gen_spec(rng, m, pname=("a%d" % i) if i in (0, 3) else None, depth=2, nice=True)
+                for i in range(4)}
+    params = {"a%d" % i: rng.choice(NICE) for i in (0, 3)}
+    if rng.random() < 0.6:
+        params["a3"] = params["a0"]
     h = {"family": "stepper", "variant": variant, "m": m, "params": params, "circuits": circuits,
          "ops": [["circ", "c0"]]}
     ops = h["ops"]
     plain = [s for s in SV_POOL if "{" not in s[0][2]]
+    last_q = None
+    cur = "c0"
+    values = dict(params)
+
+    def key_of(cid):
+        return [values[a[1]] for comp in circuits[cid]["comps"] for a in comp[2:] if isinstance(a, list)]
     while len(ops) < nops:
         r = rng.random()
-        if r < 0.10:
-            ops.append(["circ", rng.choice(list(circuits))])
+        if r < 0.13:
+            twins = [c for c in circuits if c != cur and key_of(c) == key_of(cur)]
+            cur = rng.choice(twins) if twins and rng.random() < 0.6 else rng.choice(list(circuits))
+            ops.append(["circ", cur])
+            if last_q is not None and rng.random() < 0.7:
+                ops.append(_cp(last_q))         # the last question again as the very next one
         elif r < 0.25:
             ops.append(["param", rng.choice(list(params)), rng.choice(NICE)])
+            values[ops[-1][1]] = ops[-1][2]
         elif r < 0.40:
             ops.append(["filter", rng.choice([0, 0, 1, 2, 3])])
         elif r < 0.52:
@@ -1047,6 +1144,7 @@ def gen_stepper(rng, variant, nops):
             else:
                 ops.append(["q", "probs_svd", [[0.5, rng.choice(plain)], [0.5, rng.choice(plain[:3])]],
                             rng.choice(["none", "th"])])
+            last_q = ops[-1]
     return h
 
 
@@ -1582,6 +1680,13 @@ def fail_sig(h, f):
     ks = [o[0] for o in h["ops"][:i]]
     fam, var = h["family"], h["variant"]
     asis = isinstance(fresh, dict) and fresh.get("oracle") == "as-is"
+    plain_swaps = fam == "backend" and not any(x in ks for x in ("mask", "clear", "cutoff")) \
+        and ks.count("circ") + ks.count("param") >= 2
+    if var == SYMBOLIC:
+        # the named shapes below are those of the numeric engines
+        if plain_swaps:
+            return "backend-answer-depends-on-earlier-circuits:" + var
+        return generic_sig(h, f, asis)
     if fam == "backend" and var == "SLOS" and real.get("e") == "KeyError" and ("mask" in ks or "clear" in ks):
         return "slos-mask-change-after-input"
     if fam == "backend" and var == "SLOS" and ks.count("in") >= 2 and "mask" in ks:
@@ -1595,6 +1700,10 @@ def fail_sig(h, f):
         return "stepper-filter-stale"
     prev_q = max([j for j in range(i) if h["ops"][j][0] == "q"], default=None)
     since = [o[0] for o in h["ops"][(prev_q + 1 if prev_q is not None else 0):i]]
+    if fam == "stepper" and "e" not in real and prev_q is not None and "circ" in since:
+        return "stepper-stale-after-set-circuit"
+    if plain_swaps and not (var == "MPS" and ks.count("in") >= 2):
+        return "backend-answer-depends-on-earlier-circuits:" + var
     if fam == "simulator" and prev_q is not None and ("heralds" in since or "clear_heralds" in since) \
             and not any(x in since for x in ("circ", "param")):
         return "simulator-stale-after-heralds-change"
@@ -1617,6 +1726,11 @@ def fail_sig(h, f):
         return "processor-set-circuit-keeps-nonunitary-flags"
     if fam == "processor" and op[2] is None and any(o[0] == "q" and o[2] is not None for o in h["ops"][:i]):
         return "processor-precision-sticky"
+    return generic_sig(h, f, asis)
+
+
+def generic_sig(h, f, asis=False):
+    i, op, real, fresh = f
     kinds = []
     for o in h["ops"][:i + 1]:
         k = o[0] if o[0] != "q" else "q:" + o[1]
@@ -1867,7 +1981,8 @@ def exhaustive_histories(variant, depth):
             ops = [alpha[i] for i in seq]
             if ops[-1][0] != "q":
                 continue
-            h = {"family": "backend", "variant": variant, "params": {}, "circuits": circuits, "ops": ops}
+            h = {"family": "backend", "variant": variant, "params": SHORT_PARAMS.get(variant, {}), "subs": SHORT_SUBS,
+                 "circuits": circuits, "ops": ops}
             if not legal_backend(h):
                 continue
             hs.append(h)
@@ -1914,6 +2029,23 @@ for _v in BACKENDS:
                   ["in", [2, 0]], ["q", "allprob"], ["circ", "A"], ["in", [1, 1]], ["q", "evolve"]]):
         DIRECTED.append({"family": "backend", "variant": _v, "params": {}, "circuits": short_alphabet(_v)[0],
                          "ops": _ops})
+
+
+# the whole table through prob_amplitude (the one bulk question every engine, the symbolic SLOS included, answers):
+# a circuit of the same size / of another size with the same photon number / a parameter made numeric and symbolic
+# again, the earlier inputs asked again afterwards
+for _v in BACKENDS + [SYMBOLIC]:
+    _sym = [[["circ", "A"], ["in", [1, 1]], ["q", "amps"], ["param", "s0", 2.1], ["in", [1, 1]], ["q", "amps"],
+             ["param", "s0", None], ["in", [1, 1]], ["q", "amps"], ["in", [2, 0]], ["q", "amp", [1, 1]]]] \
+        if _v == SYMBOLIC else []
+    for _ops in [[["circ", "A"], ["in", [1, 1]], ["q", "amps"], ["circ", "B"], ["in", [1, 1]], ["q", "amps"]],
+                 [["circ", "B"], ["in", [1, 1]], ["in", [2, 0]], ["q", "amps"], ["circ", "A"], ["in", [2, 0]], ["q", "amps"],
+                  ["in", [1, 1]], ["q", "prob", [0, 2]], ["circ", "B"], ["in", [1, 0]], ["q", "amps"]],
+                 [["circ", "C"], ["in", [1, 1, 0]], ["q", "amps"], ["circ", "A"], ["in", [1, 1]], ["q", "amps"]],
+                 [["circ", "A"], ["in", [1, 1]], ["q", "amps"], ["circ", "C"], ["in", [1, 0, 1]], ["q", "amps"],
+                  ["circ", "B"], ["in", [2, 0]], ["q", "amps"], ["in", [1, 1]], ["q", "amp", [2, 0]]]] + _sym:
+        DIRECTED.append({"family": "backend", "variant": _v, "params": SHORT_PARAMS.get(_v, {}), "subs": SHORT_SUBS,
+                         "circuits": short_alphabet(_v)[0], "ops": _ops})
 
 
 for _ops in ([["circ", "D"], ["in", [1, 1, 1, 0]], ["q", "dist"], ["in", [1, 1, 0, 0]], ["q", "dist"]],
@@ -2006,9 +2138,15 @@ def pairwise_simulator(variant, rng, ncross, nq=None):
     return hs
 
 
+# c1 and c2 have no variable parameter, c3 has one with the value of c0's: the Stepper's request key (variable
+# parameter values, input, filter) is the same before and after such a swap
 PAIR_STEP_CIRCUITS = {"c0": {"m": 3, "comps": [["BS", 0, ["p", "a0"], 0.5], ["BS", 1, 0.75, 2.0], ["PS", 0, 0.5]]},
-                      "c1": {"m": 3, "comps": [["BS", 1, 2.25, 1.5], ["PS", 1, 1.25], ["BS", 0, 1.0, 0.5]]}}
-PAIR_STEP_STEPS = [["circ", "c0"], ["circ", "c1"], ["param", "a0", 1.75], ["filter", 0], ["filter", 1], ["filter", 2],
+                      "c1": {"m": 3, "comps": [["BS", 1, 2.25, 1.5], ["PS", 1, 1.25], ["BS", 0, 1.0, 0.5]]},
+                      "c2": {"m": 3, "comps": [["BS", 0, 1.5, 0.5], ["PS", 1, 0.75], ["BS", 1, 2.0, 1.0]]},
+                      "c3": {"m": 3, "comps": [["BS", 1, ["p", "a1"], 1.0], ["PS", 0, 0.5], ["BS", 0, 2.25, 0.5]]}}
+PAIR_STEP_PARAMS = {"a0": 1.25, "a1": 1.25}
+PAIR_STEP_STEPS = [["circ", "c0"], ["circ", "c1"], ["circ", "c2"], ["circ", "c3"], ["param", "a0", 1.75],
+                   ["filter", 0], ["filter", 1], ["filter", 2],
                    ["filter", 3], ["heralds", {"0": 1}], ["heralds", {"2": 1}], ["heralds", {}]]
 PAIR_STEP_QUERIES = [["q", "evolve", [[1, 0, "|1,1,0>"]]], ["q", "evolve", _SUP], ["q", "probs", "|1,1,0>"],
                      ["q", "probs_svd", [[0.5, _SUP], [0.5, [[1, 0, "|2,0,0>"]]]], "th"]]
@@ -2016,7 +2154,7 @@ PAIR_STEP_QUERIES = [["q", "evolve", [[1, 0, "|1,1,0>"]]], ["q", "evolve", _SUP]
 
 def pairwise_stepper(variant):
     hs = []
-    base = {"family": "stepper", "variant": variant, "m": 3, "params": {"a0": 1.25}, "circuits": PAIR_STEP_CIRCUITS}
+    base = {"family": "stepper", "variant": variant, "m": 3, "params": PAIR_STEP_PARAMS, "circuits": PAIR_STEP_CIRCUITS}
     for a, b in _flavoured_pairs(PAIR_STEP_STEPS, "heralds"):
         for q in PAIR_STEP_QUERIES:
             hs.append(dict(base, ops=_cp([["circ", "c0"], a, q, b, q])))
@@ -2138,7 +2276,12 @@ def run(chk: core.Check):
                              "simulator-mask-free-query-after-masked-query", "simulator-evolve-svd-filtered-vector",
                              "processor-herald-declared-after-query", "processor-distribution-input-then-noise",
                              "processor-noise-updated-in-place-not-assigned-then-query",
-                             "processor-precision-then-default", "processor-automatic-filter-stored-then-requery"]
+                             "processor-precision-then-default", "processor-automatic-filter-stored-then-requery",
+                             "same-size-swap-earlier-input-asked-again",
+                             "symbolic-slos-same-size-swap-earlier-input-asked-again",
+                             "symbolic-slos-parameter-left-symbolic",
+                             "other-size-circuit-same-photon-number-amplitude-query",
+                             "stepper-other-circuit-same-request-key-asked-again"]
     seed_rng = chk.rng
     jobs = []
     # corpus first
@@ -2147,16 +2290,16 @@ def run(chk: core.Check):
         jobs.append(("corpus", corpus))
     jobs.append(("directed", DIRECTED))
     depth = chk.pick(4, 5)
-    for v in BACKENDS:
+    for v in BACKENDS + [SYMBOLIC]:
         hs = exhaustive_histories(v, depth)
         n = 8
         for k in range(n):
             jobs.append((f"exhaustive:{v}", hs[k::n]))
     nrand = chk.pick(36, 260)
     nops = chk.pick(25, 80)
-    for v in BACKENDS:
+    for v in BACKENDS + [SYMBOLIC]:
         hs = [gen_backend(random.Random(seed_rng.getrandbits(64)), v, random.Random(seed_rng.getrandbits(32)).randint(8, nops),
-                          4 if v == "MPS" else chk.pick(3, 4)) for _ in range(nrand)]
+                          4 if v == "MPS" else (3 if v == SYMBOLIC else chk.pick(3, 4))) for _ in range(nrand)]
         for k in range(4):
             jobs.append((f"random:backend:{v}", hs[k::4]))
     nsim = chk.pick(40, 160)
@@ -2215,7 +2358,9 @@ def run(chk: core.Check):
             # a worker killed by a native crash makes the pool wait for ever: watch for workers that disappeared
             # while running a history, and report that history
             pending = pool.map_async(_work, jobs, chunksize=1)
-            deadline = time.time() + chk.pick(170, 850)
+            # (the limit only has to tell a hang from a slow run: on a machine shared with many other jobs the same
+            # work takes several times its usual 60 s / 9 min)
+            deadline = time.time() + chk.pick(480, 1700)
             marks = []
             while not pending.ready():
                 pending.wait(2)
@@ -2245,6 +2390,8 @@ def run(chk: core.Check):
     reqs = [item["request"] for _, item in all_items if "request" in item]
     replies = iter(chk.lean.ask_many(reqs))
     reported = set()
+    confirmed = set()
+    disagreements = []
     n_exh = 0
     secs = {}
     for label, item in all_items:
@@ -2265,15 +2412,22 @@ def run(chk: core.Check):
             sig = fail_sig(sh, f)
             if sig not in reported:
                 reported.add(sig)
+                confirmed.add((h["family"], h["variant"]))
                 chk.fail("violation", sig, describe_fail(f), {"history": sh, "original": h, "source": label})
             continue
         diffs = compare_model(chk, h, item, reply)
         if diffs:
-            sig = "model:" + h["family"] + ":" + h["variant"] + ":" + diffs[0][0]
-            if sig not in reported:
-                reported.add(sig)
-                chk.fail("broken", sig, "model and code disagree, the fresh-object oracle does not fail: " + diffs[0][1],
-                         {"history": h, "source": label})
+            disagreements.append((h, label, diffs))
+    # the failing inputs first; a model / code disagreement is reported after them
+    for h, label, diffs in disagreements:
+        sig = "model:" + h["family"] + ":" + h["variant"] + ":" + diffs[0][0]
+        if sig not in reported:
+            reported.add(sig)
+            note = ""
+            if (h["family"], h["variant"]) in confirmed:
+                note = " (a failing input for this object and engine is reported separately by this run)"
+            chk.fail("broken", sig, "model and code disagree, the fresh-object oracle does not fail on this history"
+                     + note + ": " + diffs[0][1], {"history": h, "source": label})
     if n_exh:
         chk.branch("exhaustive-short", n_exh)
     chk.extra["cpu_seconds_by_stream"] = {k: round(v, 1) for k, v in secs.items()}
@@ -2310,12 +2464,23 @@ def account(chk, label, h, item):
         m = None
         inp = None
         masked = False
+        sym = h["variant"] == SYMBOLIC
+        asked = set()       # inputs answered for since the engine was last emptied (other size, mask change)
+        before = {}         # … those answered for before a step that keeps the size: input -> kind of step
+        last_n = {}         # photon number of the last input answered for, per circuit size
         for o in ops:
             if o[0] == "circ":
                 m2 = h["circuits"][o[1]]["m"]
                 if m is not None:
                     chk.branch("same-size-circuit-swap" if m2 == m else "other-size-circuit")
+                if m2 == m:
+                    before.update({s: "swap" for s in asked})
+                else:
+                    asked, before = set(), {}
                 m, inp = m2, None
+            elif o[0] == "param" and m is not None:
+                before.update({s: "param" for s in asked})
+                inp = None
             elif o[0] == "in" and m is not None and len(o[1]) == m:
                 if masked and inp is not None and sum(inp) != sum(o[1]):
                     chk.branch("photon-number-change-under-mask")
@@ -2324,10 +2489,24 @@ def account(chk, label, h, item):
                 if inp is not None:
                     chk.branch("mask-after-input")
                 masked = True
+                asked, before = set(), {}
             elif o[0] == "clear":
                 masked = False
+                asked, before = set(), {}
             elif o[0] == "cutoff" and inp is not None:
                 chk.branch("mps-cutoff-change")
+            elif o[0] == "q" and inp is not None and (not sym or o[1] in ("amp", "prob", "amps")):
+                if tuple(inp) in before:
+                    # an input answered for, a circuit of the same size (or a parameter change), the same input again
+                    chk.branch("same-size-swap-earlier-input-asked-again")
+                    if sym:
+                        chk.branch("symbolic-slos-same-size-swap-earlier-input-asked-again")
+                        if any(v is None for v in h["params"].values()):
+                            chk.branch("symbolic-slos-parameter-left-symbolic")
+                if any(mm != m and n == sum(inp) for mm, n in last_n.items()) and o[1] in ("amp", "prob", "amps", "evolve"):
+                    chk.branch("other-size-circuit-same-photon-number-amplitude-query")
+                asked.add(tuple(inp))
+                last_n[m] = sum(inp)
     if label.startswith("pairwise"):
         chk.branch("pairwise-" + fam)
     # the caller's own mutable argument (mask list / heralds dict / NoiseModel) updated in place and given again,
@@ -2420,11 +2599,33 @@ def account(chk, label, h, item):
                 seen[key] = (epoch, cur)
     if fam == "stepper":
         q = False
+        values = dict(h["params"])
+
+        def varlist(cid):
+            return [values[a[1]] for comp in h["circuits"][cid]["comps"] for a in comp[2:] if isinstance(a, list)]
+        cur = None
+        last = None         # (question, circuit, its variable parameter values) of the last query
+        only_circ = False   # nothing but set_circuit since
         for o in ops:
             if o[0] == "q":
                 q = True
-            elif o[0] in ("filter", "heralds") and q:
-                chk.branch("stepper-filter-change")
+                if last is not None and cur is not None and only_circ and last[0] == json.dumps(o) and last[1] != cur \
+                        and last[2] == varlist(cur):
+                    # the request key of `Stepper.compile` (variable parameter values, input, filter) is the one of
+                    # the previous request although the circuit is another one
+                    chk.branch("stepper-other-circuit-same-request-key-asked-again")
+                    if rnd:
+                        chk.count("stepper_same_key_requery_random", h["variant"])
+                last = (json.dumps(o), cur, varlist(cur) if cur is not None else None)
+                only_circ = True
+            elif o[0] == "circ":
+                cur = o[1]
+            else:
+                only_circ = False
+                if o[0] == "param":
+                    values[o[1]] = o[2]
+                if o[0] in ("filter", "heralds") and q:
+                    chk.branch("stepper-filter-change")
     sig = (fam, h["variant"], tuple(kinds))
     chk.case(sig, later_q, {"family": fam, "variant": h["variant"], "ops": ops[:12]} if later_q else None)
     chk.evaluations += max(0, item.get("nq", 1) - 1)
